@@ -28,7 +28,7 @@ from runner import Infra, TieBroken
 ID = "C18"
 LEAN_MODULES = ["PyYetiVerif.Props.C18", "PyYetiVerif.Props.C18Up", "PyYetiVerif.Props.C18Idx", "PyYetiVerif.Props.C18Xyz",
                 "PyYetiVerif.Props.C18Tran", "PyYetiVerif.Props.C18Ulvs", "PyYetiVerif.Props.C18Prt", "PyYetiVerif.Props.C18Cyc",
-                "PyYetiVerif.Props.C18Tran0", "PyYetiVerif.Props.C18TranM",
+                "PyYetiVerif.Props.C18Tran0", "PyYetiVerif.Props.C18TranM", "PyYetiVerif.Props.C18Assoc",
                 "PyYetiVerif.Audit.C18"]
 AUDIT_FILE = "PyYetiVerif/Audit/C18.lean"
 THEOREMS = [
@@ -38,6 +38,8 @@ THEOREMS = [
         "upqsetpv_fuel_stable upqsetpv_fuel_suffices upqsetpv_cycle_diverges cyclic_not_acyclic QConn_iff upqsetpv_spec canFlag_of_flagged separate_of_check upqIdx_eq_upasetpv upasetpv_perm mat_intersect_order mat_intersect_keep1 mat_intersect_keep2 mat_intersect_keep0 mat_intersect_keep_other findse_spec findse_find? nodeIds_spec nodeIds_make xyz_triple_exact find_xyz_triples_exact "
         "formtran_partition_identity formtran_aset_identity formtran_columns_are_target_set ulvsPath_spec ulvsLoop_chain formulvs_chain_is_product formulvs_noshortcut formulvs_cases formdrm_is_rows_of_formtran formdrm_same_se addulvs_consistent memberCol_spec usetprt_table_is_partition_listing mask_expression_is_union mask_expression_members mask_expression_append mask_expression_absorbs mkdofpv_expression find_subseq_mem_iff find_subseq_errors find_rows_other_length mat_intersect_duplicates index_helpers_refuse_together upqsetpv_never_returns_of_progress upqsetpv_cyclic_diverges formtran0_gset formtran0_phg formtran0_pha formtran_mset_composition dotChain_append ulvsPath_mono ulvsPath_split"
         " iddofG_eq_iddofOf iddofG_is_gset_rows"
+        " dot_assoc_rect dotChain_one_append ShapesAgree_rect ShapesAgree_chain_ok formulvs_path_composes ulvsLevels_complete"
+        " ulvsLevels_sound formulvs_path_composes_of_test"
     ).split()
 ]
 TRUSTED = [
@@ -153,9 +155,13 @@ PARTIAL = (
     "stream); a DOF named twice with gset=True "
     "gave a zero row before fix 061ccd9 (F68, repaired: formtran0_gset now holds for every request; regression family "
     "formtran-se0-gset-repeated-dof). formulvs / formdrm / addulvs are proved as products / rows / stored entries of "
-    "formtran levels (formulvs_chain_is_product: left-to-right product along the tree path; associativity of the list "
-    "matrix product is not proved: ULVS(a->c) is proved to be the chain continued from ULVS(a->b) through the levels below b "
-    "(dotChain_append, ulvsPath_split), that this equals ULVS(a->b) ULVS(b->c) is checked by the oracle only). usetprt: the returned "
+    "formtran levels (formulvs_chain_is_product: left-to-right product along the tree path; the product is associative on rectangular "
+    "matrices - dot_assoc_rect, dotChain_one_append: equalities of values, the ValueError of unequal inner dimensions "
+    "included - and ULVS composes along a tree path, formulvs_path_composes: ULVS(a->c) = ULVS(a->b) ULVS(b->c) for an SE b "
+    "strictly between, under the shape hypothesis that the level matrices from a down to c pass the decidable test "
+    "ShapesAgree (each a rectangular array, inner dimensions of neighbours equal); that the levels formtran returns pass "
+    "it is NOT proved - the test is run by the driver on every generated formulvs case (stream formulvs-shapes, "
+    "formulvs_path_composes_of_test) and its level shapes are compared with those of the real one-level calls). usetprt: the returned "
     "table is proved (usetprt_table_is_partition_listing), the printed text is not modelled. On the nas2cam files of "
     "pyYeti's tests (non-integer matrices) the matrix routines are compared numerically (model over exact rationals, "
     "1e-9 of the largest entry), not exactly. Float / mixed int-float inputs are "
@@ -177,7 +183,8 @@ MANIFEST = {
     "DOF in request order, unit vector at the a-set column for t- and q-set DOF, stored got / goq row scattered to the "
     "t- and q-columns for o-set DOF, zero for s-set DOF, GM composed with the n-set rows for m-set DOF (semiring), "
     "columns = the a-set (any linear order of the [id, dof] rows); residual: g-set selection / phg rows / pha recovery; formulvs = left-to-right product of the per-level formtran matrices along the tree path for "
-    "any depth and any keepcset / shortcut / gset; formdrm = rows of formtran times ULVS; addulvs stores exactly "
+    "any depth and any keepcset / shortcut / gset, the product associative on rectangular matrices and ULVS(a->c) = "
+    "ULVS(a->b) ULVS(b->c) along a tree path (levels passing the shape test); formdrm = rows of formtran times ULVS; addulvs stores exactly "
     "formulvs; the table of usetprt is the listing of the requested sets (each DOF once, table order, numbered per "
     "set); mkusetmask expressions are unions (idempotent, commutative, associative), mkdofpv on expressions; "
     "find_subseq membership form without wrap / clip; upqsetpv on a cyclic selist never returns (pigeonhole); exact "
@@ -187,8 +194,9 @@ MANIFEST = {
     "overwriting an earlier flag at a shared place, broadcasting) is tied (correspondence + construction oracle) but "
     "nothing is claimed; make_uset coordinates with split component lists (undocumented) are only modelled; "
     "find_xyz_triples on inexact data (tolerance rule) is tied numerically (exact pv, coordinates / scales to 1e-9) but "
-    "not proved; the m-set rows of the residual's pha branch are located, not expanded; associativity of the list matrix "
-    "product (ULVS(a->c) = ULVS(a->b) ULVS(b->c)) is checked by the oracle only; the printed text of usetprt is not "
+    "not proved; the m-set rows of the residual's pha branch are located, not expanded; that the formtran levels are "
+    "rectangular arrays of fitting shapes (hypothesis ShapesAgree of formulvs_path_composes) is tested by the driver on "
+    "every generated case (stream formulvs-shapes), not proved; the printed text of usetprt is not "
     "modelled; on the (non-integer) nas2cam test files the matrix routines are compared to 1e-9, not exactly",
     "technique": "Lean 4 proof about executable models + ast translator for mkusetmask + exact differential "
     "correspondence + model-free oracle",
@@ -833,6 +841,21 @@ def _tran_streams(ctx, cs, masks):
                     cs.add("formulvs", "fulvs %d %d %d %d %d | %s | none" % (c, sedn, kc, sc, gset, secs), impl,
                            dict(plain, what="formulvs", seup=c, sedn=sedn, keepcset=kc, gset=gset),
                            nontrivial=r[0] == "ok" and depth > 1, branch=br)
+                    # the shape hypothesis of formulvs_path_composes (driver: shapesTest): the levels the model multiplies
+                    # pass ShapesAgree and have the shapes of the real one-level matrices formulvs(s, parent(s))
+                    if r[0] == "ok" and np.ndim(r[1]) == 2 and not (sc and sedn == 0 and not gset and c in nas.get("ulvs", {})):
+                        shp = []
+                        for a_, b_ in zip(path[:depth], path[1:depth + 1]):
+                            r1 = _call(n2p.formulvs, nas, a_, b_, kc, False, gset)
+                            if r1[0] != "ok" or np.ndim(r1[1]) != 2:
+                                shp = None
+                                break
+                            shp.append("%d %d" % np.asarray(r1[1]).shape)
+                        if shp is not None:
+                            cs.add("formulvs-shapes", "fshapes %d %d %d %d | %s" % (c, sedn, kc, gset, secs),
+                                   "ok 1 | " + " ; ".join(shp),
+                                   dict(plain, what="formulvs-shapes", seup=c, sedn=sedn, keepcset=kc, gset=gset),
+                                   nontrivial=depth > 1, branch="formulvs-shapes:depth-%d" % min(depth, 3))
             # seup == sedn, an SE that is not in selist
             c = rng.choice(ses)
             for a_, b_ in ((c, c), (0, 0), (999, 0)):
@@ -1539,7 +1562,7 @@ def correspondence(ctx):
         "tran-input:goq-absent", "tran-input:got-absent", "tran-input:gm-no-o",
         "formulvs:depth-1", "formulvs:depth-2", "formulvs:depth-3", "formulvs:one", "formulvs:value-error",
         "formulvs:keepcset-false", "formulvs:gset", "formulvs:to-upstream-se", "formulvs:runtime-error",
-        "formulvs:index-error", "formdrm:same-se", "formdrm:downstream", "formdrm:value-error", "formdrm:stored-ulvs",
+        "formulvs:index-error", "formulvs-shapes:depth-1", "formulvs-shapes:depth-2", "formulvs-shapes:depth-3", "formdrm:same-se", "formdrm:downstream", "formdrm:value-error", "formdrm:stored-ulvs",
         "addulvs:new", "addulvs:existing-entry", "addulvs:shortcut-keeps-stored",
         "usetprt:all-rows", "usetprt:rows-dropped", "usetprt:none",
         "tran-real-dictionary", "formtran-real:set-m", "formtran-real:set-o", "formtran-real:set-a",
@@ -2136,7 +2159,13 @@ def _oracle_tran(ctx, inp):
                 r1 = _call(n2p.formulvs, nas, c, p_, kc, False, gset)
                 r2 = _call(n2p.formulvs, nas, p_, sedn, kc, False, gset)
                 if r1[0] == "ok" and r2[0] == "ok":
-                    prod = np.asarray(r1[1]) @ np.asarray(r2[1])
+                    m1_, m2_ = np.asarray(r1[1]), np.asarray(r2[1])
+                    if m1_.ndim == 2 and m2_.ndim == 2 and m1_.shape[1] != m2_.shape[0]:
+                        ctx.fail("formulvs-chain-not-the-product", "ULVS(seup -> sedn) must be ULVS(seup -> p) @ ULVS(p -> sedn): "
+                                 "the inner dimensions of the two factors differ", full_inp, list(ul.shape),
+                                 [list(m1_.shape), list(m2_.shape)])
+                        return
+                    prod = m1_ @ m2_ if m1_.ndim and m2_.ndim else m1_ * m2_
                     if prod.shape != ul.shape or not np.array_equal(prod, ul):
                         ctx.fail("formulvs-chain-not-the-product", "ULVS(seup -> sedn) must be ULVS(seup -> p) @ ULVS(p -> sedn)",
                                  full_inp, ul.tolist(), prod.tolist())
